@@ -75,7 +75,7 @@ Record good_cfg (cf : acfg) (lk : locked) : Prop := {
 (* everything the property needs to know about a successful bid, ledger aside *)
 Lemma place_bid_amounts cf lk a s who amt0 wd twa s' a' r :
   good_cfg cf lk -> good_auction cf lk a -> 0 <= twa < 9223372036854775808 ->
-  place_bid cf lk a s who amt0 wd twa = Ok (s', a', r) ->
+  place_bid_core cf lk a s who amt0 wd twa = Ok (s', a', r) ->
   0 <= r_paid r <= a_debt a /\ 0 <= r_recv r <= a_coll a /\
   match a' with
   | Some b => r_closed r = false /\ 0 < r_paid r /\
@@ -93,7 +93,7 @@ Lemma place_bid_amounts cf lk a s who amt0 wd twa s' a' r :
   end.
 Proof.
   intros GC GA Htwa H. destruct GC, GA. pose proof (dp_nonneg lk twa Htwa) as Hdp.
-  unfold place_bid in H. fold (dp_of lk twa) in H.
+  unfold place_bid_core in H. fold (dp_of lk twa) in H.
   destruct (Z.leb_spec amt0 0); [discriminate|]. destruct wd; [discriminate|].
   set (full := amt0 >=? a_debt a) in *. set (amt := if full then a_debt a else amt0) in *.
   apply obind_ok in H as (q & Hq & H). apply opanic_ok, conv_c_some in Hq as (Hq & _ & Hpr).
@@ -214,10 +214,10 @@ Definition Inv (cf : acfg) (lk : locked) (f : life) : Prop :=
 
 (* the reserve is only touched in the collateral-exhausted branch, and that branch closes *)
 Lemma topup_zero cf lk a s who amt wd twa s' a' r :
-  place_bid cf lk a s who amt wd twa = Ok (s', a', r) ->
+  place_bid_core cf lk a s who amt wd twa = Ok (s', a', r) ->
   (r_exh r = false -> r_topup r = 0 /\ rsv s' = rsv s) /\ (forall b, a' = Some b -> r_exh r = false).
 Proof.
-  intros E. unfold place_bid in E.
+  intros E. unfold place_bid_core in E.
   destruct (amt <=? 0); [discriminate|]. destruct wd; [discriminate|].
   apply obind_ok in E as (q & _ & E). apply obind_ok in E as (qb & _ & E).
   destruct (_ || _).
@@ -240,7 +240,7 @@ Proof.
   assert (HIf : Inv cf lk f) by (unfold Inv; rewrite Ea; auto).
   destruct HI as (GA & Hd & Hc & Ht0).
   destruct o as [who amt wd twa | now pc pd].
-  - destruct (place_bid cf lk a (f_s f) who amt wd twa) as [[[s' a'] r]| |] eqn:E;
+  - destruct (place_bid_core cf lk a (f_s f) who amt wd twa) as [[[s' a'] r]| |] eqn:E;
       try exact HIf.
     pose proof (place_bid_amounts _ _ _ _ _ _ _ _ _ _ _ GC GA Ho E) as (Hpaid & Hrecv & Hrest).
     pose proof (topup_zero _ _ _ _ _ _ _ _ _ _ _ E) as (Hz & Hpart).
